@@ -10,7 +10,8 @@ Import ListNotations.
 (* ------------------------------------------------------------------ JSON *)
 
 Inductive json :=
-| JNull
+| JAbsent                     (* vector's shared null node: what Get returns for a missing child *)
+| JNull                       (* a null written in the document *)
 | JBool (b : bool)
 | JNum (t : bytes)            (* the number's text, as jsonvector keeps it *)
 | JStr (t : bytes)            (* raw text between the quotes *)
@@ -38,17 +39,17 @@ Fixpoint jget (j : json) (keys : list bytes) : json :=
   | [] => j
   | k :: ks =>
       match j with
-      | JObj kvs => match assoc_b k kvs with Some c => jget c ks | None => JNull end
+      | JObj kvs => match assoc_b k kvs with Some c => jget c ks | None => JAbsent end
       | JArr xs =>
           match atoi_idx k with
-          | Some i => match nth_error xs i with Some c => jget c ks | None => JNull end
-          | None => JNull
+          | Some i => match nth_error xs i with Some c => jget c ks | None => JAbsent end
+          | None => JAbsent
           end
-      | _ => JNull
+      | _ => JAbsent
       end
   end.
 
-Definition jis_null (j : json) : bool := match j with JNull => true | _ => false end.
+Definition jis_null (j : json) : bool := match j with JNull | JAbsent => true | _ => false end.
 
 (* Node.Bytes(): only string, number, bool *)
 Definition jbytes (j : json) : bytes :=
@@ -323,7 +324,7 @@ Definition render_nat (n : nat) : bytes := format_int (Z.of_nat n).
 
 Definition render_json (j : json) : bytes :=
   match j with
-  | JNull => bs "null"
+  | JNull | JAbsent => bs "null"
   | JBool true => bs "b:true"
   | JBool false => bs "b:false"
   | JNum t => bs "num:" ++ t
